@@ -23,7 +23,17 @@ pub const SEEDS: &[(&str, &str)] = &[
 ];
 
 pub fn run(ctx: &mut Ctx) {
+    run_edition(ctx, 0);
+    // thorough: the same spaces with the latest edition and the experimental features on (different prelude,
+    // visibility and member-access rules, more syntax accepted by the semantic stage)
+    if ctx.tier == Tier::Thorough {
+        run_edition(ctx, 4);
+    }
+}
+
+fn run_edition(ctx: &mut Ctx, edition: u8) {
     let tier = ctx.tier;
+    let opts = crate::pipe::CrateOpts { edition, experimental: edition > 0 };
     // one database per worker, contents replaced per text (the incremental path the LS uses)
     let mut db = None;
     let mut texts_in_db = 0usize;
@@ -34,14 +44,14 @@ pub fn run(ctx: &mut Ctx) {
         }
         texts_in_db += 1;
         let d = db.as_mut().unwrap();
-        if !ctx.sub(|| json!({"text": src, "origin": origin.clone(), "stage": "semantic+lowering diagnostics"})) {
+        if !ctx.sub(|| json!({"text": src, "origin": origin.clone(), "edition": edition, "stage": "semantic+lowering diagnostics"})) {
             return;
         }
         ctx.count("evaluations", 1);
         ctx.count("semantic_texts", 1);
-        ctx.distinct(&("sem", src));
+        ctx.distinct(&("sem", edition, src));
         let r = ctx.guarded(|| {
-            let ci = set_src(d, "t", src);
+            let ci = crate::pipe::set_src_deps_opts(d, "t", src, &[], None, opts);
             diagnostics(d, &ci)
         });
         match r {
@@ -49,7 +59,7 @@ pub fn run(ctx: &mut Ctx) {
             Err((loc, msg)) => {
                 // a panic leaves the salsa database in an unknown state: start a fresh one
                 db = None;
-                ctx.violation(panic_sig(&loc, &msg), format!("diagnostics computation panicked at {loc}: {msg}"), json!({"text": src, "origin": origin, "stage": "semantic+lowering diagnostics"}));
+                ctx.violation(panic_sig(&loc, &msg), format!("diagnostics computation panicked at {loc}: {msg}"), json!({"text": src, "origin": origin, "edition": edition, "stage": "semantic+lowering diagnostics"}));
             }
         }
     };
@@ -141,9 +151,9 @@ pub fn run(ctx: &mut Ctx) {
                     let d = sdb.as_mut().unwrap();
                     ctx.count("evaluations", 1);
                     ctx.count("semantic_texts", 1);
-                    ctx.distinct(&("sem-starknet", m));
+                    ctx.distinct(&("sem-starknet", edition, m));
                     let r = ctx.guarded(|| {
-                        let ci = set_src(d, "t", m);
+                        let ci = crate::pipe::set_src_deps_opts(d, "t", m, &[], None, opts);
                         diagnostics(d, &ci)
                     });
                     match r {
